@@ -106,3 +106,20 @@ func (w *World) EnforceReceiverRule(h uint64) {
 	verifier.ReceiverMismatchEnforcementHeight = h
 	w.OnClose(func() { verifier.ReceiverMismatchEnforcementHeight = o })
 }
+
+// BridgeAdmin makes a harness key the initial administrator of the bridge and
+// liquidity contracts and shortens their governance delays, so that
+// administrator-gated methods execute instead of failing the permission check.
+// (exported protocol variables; restored when the world closes)
+func (w *World) BridgeAdmin(admin types.Address, delay uint64, guardians int) {
+	o1, o2, o3, o4, o5 := constants.InitialBridgeAdministrator, constants.MinAdministratorDelay, constants.MinSoftDelay, constants.MinUnhaltDurationInMomentums, constants.MinGuardians
+	constants.InitialBridgeAdministrator = admin
+	constants.MinAdministratorDelay = delay
+	constants.MinSoftDelay = delay
+	constants.MinUnhaltDurationInMomentums = delay
+	constants.MinGuardians = guardians
+	w.Admin = &admin
+	w.OnClose(func() {
+		constants.InitialBridgeAdministrator, constants.MinAdministratorDelay, constants.MinSoftDelay, constants.MinUnhaltDurationInMomentums, constants.MinGuardians = o1, o2, o3, o4, o5
+	})
+}
